@@ -54,7 +54,102 @@ def token_table():
 def coq_string(s):
     return '"' + s.replace('"', '""') + '"'
 
+BINOPS = ["Equal", "NotEqual", "GreaterThan", "LessThan", "GreaterThanOrEqual", "LessThanOrEqual", "Or", "Xor", "And",
+          "ShiftLeft", "ShiftRight", "Plus", "Minus", "Times", "Divide", "Reminder"]
+UNOPS = {"Minus": "UMinus", "LogicalNot": "ULogicalNot", "BinaryNot": "UBinaryNot"}
+
+
+def fn_body(src, header_re):
+    """text of the braces block following the first match of header_re"""
+    m = re.search(header_re, src)
+    if not m:
+        return None
+    i = src.index("{", m.end() - 1)
+    depth, j = 0, i
+    while j < len(src):
+        if src[j] == "{":
+            depth += 1
+        elif src[j] == "}":
+            depth -= 1
+            if depth == 0:
+                return src[i + 1:j]
+        j += 1
+    return None
+
+
+def tables():
+    """the data-like parts of the sources: precedence table, binary-operator token set, token -> operator
+    maps, FUNC_TABLE, keyword tokens.  Returns Coq text or raises ValueError (= translation failure)."""
+    def rd(rel):
+        return re.sub(r"//[^\n]*", "", open(os.path.join(REPO, rel), encoding="utf-8").read())
+    out = []
+    # BinOp::precedence
+    body = fn_body(rd("src/parser/binoptree.rs"), r"fn\s+precedence\s*\(\s*&self\s*\)\s*->\s*u8\s*\{")
+    if body is None:
+        raise ValueError("BinOp::precedence not found")
+    prec = dict((k, int(v)) for k, v in re.findall(r"Self::(\w+)\s*=>\s*(\d+)", body))
+    if set(prec) != set(BINOPS):
+        raise ValueError("BinOp::precedence: arms %s" % sorted(prec))
+    out.append("Definition gen_precedence (op : binop) : N :=\n  match op with\n" +
+               "".join("  | %s => %d\n" % (k, prec[k]) for k in BINOPS) + "  end.\n")
+    exprrs = rd("src/parser/expr.rs")
+    # TokenKind::is_binary_op
+    body = fn_body(exprrs, r"fn\s+is_binary_op\s*\(\s*&self\s*\)\s*->\s*bool\s*\{")
+    if body is None:
+        raise ValueError("is_binary_op not found")
+    toks = re.findall(r"TokenKind::(\w+)", body)
+    out.append("Definition gen_is_binary_op (k : tk) : bool :=\n  match k with\n  | " + " | ".join("T" + t for t in toks) +
+               " => true\n  | _ => false\n  end.\n")
+    # From<TokenKind> for BinOp / UnaryOp
+    body = fn_body(exprrs, r"impl\s+From<TokenKind>\s+for\s+BinOp\s*\{")
+    pairs = re.findall(r"TokenKind::(\w+)\s*=>\s*BinOp::(\w+)", body or "")
+    if not pairs:
+        raise ValueError("From<TokenKind> for BinOp not found")
+    out.append("Definition gen_binop_of_token (k : tk) : option binop :=\n  match k with\n" +
+               "".join("  | T%s => Some %s\n" % p for p in pairs) + "  | _ => None\n  end.\n")
+    body = fn_body(exprrs, r"impl\s+From<TokenKind>\s+for\s+UnaryOp\s*\{")
+    pairs = re.findall(r"TokenKind::(\w+)\s*=>\s*UnaryOp::(\w+)", body or "")
+    if not pairs:
+        raise ValueError("From<TokenKind> for UnaryOp not found")
+    out.append("Definition gen_unop_of_token (k : tk) : option unop :=\n  match k with\n" +
+               "".join("  | T%s => Some %s\n" % (a, UNOPS[b]) for a, b in pairs) + "  | _ => None\n  end.\n")
+    # FUNC_TABLE
+    ents = re.findall(r'FuncTableEntry\s*\{\s*name:\s*"(\w+)",\s*number_of_args:\s*(\d+)', rd("src/expr.rs"))
+    if not ents:
+        raise ValueError("FUNC_TABLE not found")
+    out.append("Definition gen_func_table : list (name * N) :=\n  [ " +
+               "; ".join('(s2n "%s", %s)' % e for e in ents) + " ]%string.\n")
+    # keyword tokens of TokenKind (alphabetic #[token("...")])
+    toks, regs = token_table()
+    kws = [(t, k) for t, k in toks if re.fullmatch(r"[A-Za-z]+", t)]
+    out.append("Definition gen_keywords : list (name * tk) :=\n  [ " +
+               "; ".join('(s2n "%s", T%s)' % kw for kw in kws) + " ]%string.\n")
+    out.append("(* the regular expressions of the statement lexer, as written in src/lexer/token.rs *)\nDefinition gen_regexes : list (string * string) :=\n  [ " +
+               "; ".join("(%s, %s)" % (coq_string(k), coq_string(r)) for r, k in regs) + " ]%string.\n")
+    punct = [(t, k) for t, k in toks if not re.fullmatch(r"[A-Za-z]+", t)]
+    out.append("(* the punctuation tokens *)\nDefinition gen_punct : list (string * tk) :=\n  [ " +
+               "; ".join("(%s, T%s)" % (coq_string(t.replace("\\n", "\n")) if t != "\\n" else 'String (Ascii.ascii_of_nat 10) EmptyString', k) for t, k in punct) + " ]%string.\n")
+    return "\n".join(out)
+
+
+OUT2 = os.path.join(os.path.dirname(os.path.abspath(__file__)), "..", "coq", "theories", "GeneratedTables.v")
+
+
+def write_if_changed(path, new):
+    old = open(path).read() if os.path.exists(path) else None
+    if old != new:
+        open(path, "w").write(new)
+        print("gen_tables: %s rewritten" % os.path.basename(path))
+
+
 def main():
+    try:
+        t = tables()
+    except Exception as e:   # a translation failure: the tie of the properties using these tables is broken
+        print("gen_tables: TRANSLATION FAILURE: %s" % e, file=sys.stderr)
+        return 3
+    write_if_changed(OUT2, "(* GENERATED by tools/gen_tables.py from /repo/src - do not edit. *)\nFrom DTR Require Import Prelude Ast.\n"
+                           "From Coq Require Import String Ascii.\nOpen Scope N_scope.\n\n" + t)
     nd, where = nd_table()
     lines = ["(* GENERATED by tools/gen_tables.py from the sources - do not edit. *)",
              "From Coq Require Import NArith List String.", "Import ListNotations.", "Open Scope N_scope.", ""]
